@@ -50,6 +50,13 @@ pub const DICT: &[&str] = &[
     "T: 'a' {200};", "T: {left};", "import 'x.rustemo' as m;",
 ];
 
+/// meta-data blocks inserted right after a name (rule, production symbol or terminal level)
+pub const META_DICT: &[&str] = &[
+    "{A.B}", "{a.b}", "{kind: 'x y'}", "{kind: \"fn\"}", "{fn}", "{Self}", "{kind: 5}", "{kind: 1.5}",
+    "{priority: 'a'}", "{left, right}", "{left, 5, nops}", "{99999999999}", "{-1}", "{k: 1.5, j: true}",
+    "{kind: ''}", "{Kind}", "{K, K}", "{5, 6}", "{dynamic}", "{prefer, finish}", "{kind: 'é'}", "{_}", "{nopse, nops}",
+];
+
 fn repo_grammars() -> &'static Vec<String> {
     static G: OnceLock<Vec<String>> = OnceLock::new();
     G.get_or_init(|| {
@@ -139,7 +146,7 @@ pub fn text_of(c: &Case) -> String {
     let mut toks = coarse_tokens(&base);
     for (op, pos, what) in &c.mutations {
         let n = toks.len();
-        match op % 7 {
+        match op % 8 {
             0 => {
                 let i = pick(*pos, n + 1);
                 toks.insert(i, format!(" {} ", DICT[pick(*what, DICT.len())]));
@@ -172,6 +179,19 @@ pub fn text_of(c: &Case) -> String {
             6 if n > 0 => {
                 // truncate the text here
                 toks.truncate(pick(*pos, n));
+            }
+            7 if n > 0 => {
+                // a meta-data block right after a name (rule level when the name starts a rule)
+                let words: Vec<usize> = toks
+                    .iter()
+                    .enumerate()
+                    .filter(|(_, t)| t.chars().next().map(|c| c.is_alphabetic()).unwrap_or(false))
+                    .map(|(i, _)| i)
+                    .collect();
+                if !words.is_empty() {
+                    let i = words[pick(*pos, words.len())];
+                    toks.insert(i + 1, format!(" {}", META_DICT[pick(*what, META_DICT.len())]));
+                }
             }
             _ => {}
         }
@@ -296,7 +316,7 @@ impl Prop for C16 {
          (alternatives, EMPTY, named and ?= assignments, inline strings in both quote styles, ? * + \
          with and without [separator], rule / production / terminal meta-data, production kinds, user \
          meta-data), or a .rustemo file of the repository, or a raw string; then 0..4 token / \
-         character level mutations (insert / replace with a dictionary of 100 entries incl. greedy \
+         character level mutations (meta-data blocks from a second dictionary right after a name; insert / replace with a dictionary of 100 entries incl. greedy \
          operators, groups, several modifiers, reserved names, Rust keywords, dotted names, huge \
          integers, broken strings and regexes; delete, swap, duplicate, truncate) x {LR,GLR} x table \
          type x prefer_shifts x prefer_shifts_over_empty x builder type x generated table layout x \
